@@ -59,12 +59,19 @@ func (mdb *MassDBV1) Close() error {
 func (mdb *MassDBV1) Plot() chan error {
 	result := make(chan error, 1)
 
+	// the plotting flag and the stop channel are published together:
+	// StopPlot reads both under stopLock
+	mdb.stopLock.Lock()
+	defer mdb.stopLock.Unlock()
+
 	if !atomic.CompareAndSwapInt32(&mdb.plotting, 0, 1) {
 		result <- ErrAlreadyPlotting
 		return result
 	}
 
 	if mdb.HashMapA == nil {
+		// nothing to plot, so nothing to stop either
+		atomic.StoreInt32(&mdb.plotting, 0)
 		result <- nil
 		return result
 	}
@@ -89,10 +96,12 @@ func (mdb *MassDBV1) StopPlot() chan error {
 		// StopPlot can be called by a Stop request and by the keeper's
 		// shutdown monitor at the same time: close the channel only once
 		mdb.stopLock.Lock()
-		select {
-		case <-mdb.stopPlotCh:
-		default:
-			close(mdb.stopPlotCh)
+		if atomic.LoadInt32(&mdb.plotting) != 0 {
+			select {
+			case <-mdb.stopPlotCh:
+			default:
+				close(mdb.stopPlotCh)
+			}
 		}
 		mdb.stopLock.Unlock()
 		mdb.wg.Wait()
